@@ -6,6 +6,11 @@ frame does to the device) and `Model/DecodeCtx` (what a decode may read) are con
 device-level handlers decode with exactly the context read off the device, and handling a frame
 does not change what that same frame's payload decodes to — "the same result every time" at the
 device level, where the context is a moving part.
+
+`device_thermo_decodes_with_ctx` / `device_regdata_decodes_with_ctx` are `⟨rfl, rfl⟩` / `rfl`: by construction of
+`DevD.handle` and `Ctx5.decode` (modelling decisions, see the header of C05Ctx.lean; the code side is
+harness/c05_ctx.py, device level).  The theorems with content are `applyThermo_count`, `handleRegdata_schema` and
+`handled_again_same_decode`.
 -/
 namespace PlumVerif.C05
 open PlumVerif PlumVerif.Ctx5 PlumVerif.DevD
